@@ -226,4 +226,29 @@ def t_allfaults(ctx):
         ctx.exhaustive.append('all single-character substitutions, deletions and insertions of 6 valid Base58Check strings')
 
 
-TASKS = [('exhaustive', (t_exhaustive, 5)), ('versions', (t_versions, 6)), ('random', (t_random, 3)), ('allfaults', (t_allfaults, 3))]
+def fuzz_decode(data):
+    """bytes -> a string over (mostly) the base58 alphabet, judged as Base58Check text and as plain base58"""
+    if not data:
+        return {'kind': 'anycheck', 's': ''}
+    chars = ALPHA + '0OIl '
+    if data[0] & 1:
+        s = ''.join(chars[b % 58] if b < 250 else chars[58 + b % 5] for b in data[1:120])
+        return {'kind': 'anycheck', 's': s}
+    # a VALID Base58Check string built from the bytes, then one edit at a byte-selected position
+    v = data[1] if len(data) > 1 else 0
+    p = data[3:3 + (data[2] % 40 if len(data) > 2 else 0)]
+    s = R.check_encode(v, p)
+    if len(data) > 4 and data[0] & 2:
+        i = data[-1] % len(s)
+        s = s[:i] + chars[data[-2] % 58] + s[i + (data[0] >> 2 & 1):]
+    return {'kind': 'anycheck', 's': s}
+
+
+def t_fuzz(ctx):
+    from .. import fuzzdrv
+    seeds = [b'', b'\x01' + bytes(range(40)), b'\x00\x00\x14' + bytes(20), b'\x02\x05\x14' + bytes(range(20)) + b'\x07\x09']
+    fuzzdrv.campaign(ctx, 'c10', seeds, runs=ctx.n(15000, 0), seconds=ctx.n(0, 180), max_len=200, label='base58-fuzz')
+
+
+TASKS = [('exhaustive', (t_exhaustive, 5)), ('versions', (t_versions, 6)), ('random', (t_random, 3)), ('allfaults', (t_allfaults, 3)),
+         ('fuzz', (t_fuzz, lambda tier: 1 if tier == 'quick' else 4))]
